@@ -1,7 +1,7 @@
 """C12 — a parse is a pure function of its arguments (effect property; E5 + E3)."""
 import ast
 
-from ..core import AnalysisError
+from ..core import AnalysisError, Undecided
 from .. import e1_model as e1
 from .. import e5_effects as e5
 from ..e3_rules import get_engine
@@ -332,6 +332,8 @@ def _order(ctx, rep):
                                                          and l.func.id in ctor for l in leaves):
                         elem_cls = ctor.pop()
                 int_hashed = elem_cls is not None and _int_hashed(ctx, elem_cls)
+                hash_unknown = elem_cls is not None and int_hashed is None
+                int_hashed = bool(int_hashed)
                 # what the elements are is not visible (built elsewhere): hash order cannot be judged
                 fills = [v]
                 for u_ in ast.walk(f):
@@ -344,7 +346,7 @@ def _order(ctx, rep):
                                 for l_ in ast.walk(f):
                                     if isinstance(l_, ast.For) and isinstance(l_.target, ast.Name) and l_.target.id == a_.id:
                                         fills.append(l_.iter)
-                unknown_elems = elem_cls is None and not any(_str_elements(x) for x in fills)
+                unknown_elems = (elem_cls is None and not any(_str_elements(x) for x in fills)) or hash_unknown
                 bad = None
                 for u in ast.walk(f):
                     it = None
@@ -432,7 +434,18 @@ def _int_hashed(ctx, cls_name):
             bind(a.target, a.value)
     params["__locals__"] = local_defs
     if attrs is None:
-        return False
+        # a class-level list (possibly built from a base class's): folded
+        cref = ctx.model.env(tm.name).get(cls_name)
+        if isinstance(cref, e1.ClassRef):
+            try:
+                v = e1.PureEval(ctx.model, tm, ctx.model.env(tm.name)).ev(
+                    ast.Attribute(value=ast.Name(id=cls_name, ctx=ast.Load()), attr="_attrs", ctx=ast.Load()), {})
+                if isinstance(v, (list, tuple)) and all(isinstance(x, str) for x in v):
+                    attrs = list(v)
+            except Undecided:
+                attrs = None
+    if attrs is None:
+        return None       # not visible here: the caller leaves the question open
     for at in attrs:
         vals = assigned.get(at)
         if not vals:
